@@ -112,7 +112,7 @@ static std::string deep_stream(int tc, long n)
 // child body: returns through the pipe
 static void child_main(int fd, const std::string &op, const std::string &rest)
 {
-    alarm(40);
+    alarm(600);
     try {
         if (op == "ld" || op == "deep") {
             std::string bytes;
@@ -527,7 +527,7 @@ void hx_gen(Rng &r, const std::string &tier)
     crafted(cr);
     for (auto &c : cr)
         emit("ld " + tohex(c.second), c.first);
-    for (long n : {100L, 2000L})
+    for (long n : {100L, 1000L})
         emit("deep " + std::to_string((int)SYMENGINE_SIN) + " " + std::to_string(n), "deep-ok");
     emit("deep " + std::to_string((int)SYMENGINE_SIN) + " 200000", "deep-bomb");
     ExprGen g(r);
